@@ -6,7 +6,7 @@
     fixes/C22-trailer-terminator-counted.patch; [fixed = false] the pinned code.  All statements are
     for every N-valued byte, every length, every number of chunks / trailer lines / deliveries. *)
 From Coq Require Import List NArith Bool Arith.
-From C22 Require Import Gen Model Proofs SegProofs RoundTrip Final.
+From C22 Require Import Gen Model Proofs SegProofs RoundTrip Final ToHex.
 Import ListNotations.
 
 (** the decoder's verdict and output do not depend on how the stream is cut into deliveries *)
@@ -76,3 +76,19 @@ Theorem trailer_limit_split_refuted_in_pinned_code :
   exists maxtr parts, decode false maxtr parts <> decode false maxtr [concat parts].
 Proof. exists 10%N, f5_parts. exact f5_refuted. Qed.
 Print Assumptions trailer_limit_split_refuted_in_pinned_code.
+
+(** the encoder: toChunk's size field is read back as the chunk length ... *)
+Theorem tochunk_size_field_decodes : forall n : N, hexint (to_hex n) = Some n.
+Proof. exact hexint_to_hex. Qed.
+Print Assumptions tochunk_size_field_decodes.
+
+(** ... so any sequence of non-empty byte strings written with toChunk, then "0 CRLF CRLF", then
+    arbitrary extra bytes, under any split, is decoded to exactly those strings and the extra bytes
+    ([length (to_hex _) < max_size_line] holds for every string shorter than 16^1023 bytes) *)
+Theorem tochunk_roundtrip : forall maxtr (datas : list bytes) (x : bytes) (parts : list bytes),
+  Forall (fun d => d <> [] /\ length (to_hex (N.of_nat (length d))) < max_size_line) datas ->
+  (2 <= maxtr)%N ->
+  concat parts = flat_map toChunk datas ++ [48; 13; 10; 13; 10]%N ++ x ->
+  decode true maxtr parts = (concat datas, Finished x).
+Proof. exact toChunk_roundtrip. Qed.
+Print Assumptions tochunk_roundtrip.
